@@ -15,7 +15,7 @@
 (***************************************************************************)
 EXTENDS Election, Json
 
-CONSTANTS Mode,        \* "l2" | "bgp" | "duel" | "pair" | "lemma"
+CONSTANTS Mode,        \* "l2" | "bgp" | "duel" | "pair" | "lemma" | "seq" | "cfg"
           NodeNames,   \* node names of the views
           NodesSet,    \* set of [NodeNames -> flags] functions
           MlSet, IgnSet, EtpSet,
@@ -164,6 +164,65 @@ MkView(E, c, etp, ml) ==
       advs |-> <<sel \cap odd, sel \ odd>>, etp |-> etp,
       eps |-> << slice(NodeNames \cap odd), slice(NodeNames \ odd) \o <<Ent(<<"z">>, "", Cd("T", "T"))>> >>]
 
+
+----------------------------------------------------------------------------
+(* Sequences of views (history dependence, C04 / C12 / C10).  One sequence  *)
+(* keeps the policy, the memberlist mode and the ignore flag and varies one *)
+(* dimension d: S is the set of nodes that are "fine" in that dimension.    *)
+(*   dead     not in the memberlist (needs ml)                              *)
+(*   unsel    not selected by any advertisement (a configuration change)    *)
+(*   unavail  NetworkUnavailable                                            *)
+(*   excl     exclude-from-external-load-balancers label                    *)
+(*   noep     no serving endpoint on the node (and none elsewhere)          *)
+(*   unavailx NetworkUnavailable on nodes that all carry the exclude label  *)
+(*   mix      n1: dead, n2: unsel, n3: noep, n4: excl                       *)
+(* Every node stays known: a speaker never forgets a Node object.           *)
+SeqDims == {"dead", "unsel", "unavail", "excl", "noep", "unavailx", "mix"}
+
+SeqCause(d, n) ==
+  IF d # "mix" THEN d
+  ELSE CASE n = "n1" -> "dead" [] n = "n2" -> "unsel" [] n = "n3" -> "noep" [] OTHER -> "excl"
+
+SeqView(S, d, etp, ml, ign) ==
+  LET why(n) == SeqCause(d, n)
+      bad(n) == n \notin S
+      fl(n) == Fl(T, ~(bad(n) /\ why(n) = "dead"),
+                  bad(n) /\ why(n) \in {"unavail", "unavailx"},
+                  (bad(n) /\ why(n) = "excl") \/ why(n) = "unavailx")
+      sel == {n \in NodeNames : ~(bad(n) /\ why(n) = "unsel")}
+      odd == {"n1", "n3"}
+      ent(n) == Ent(<<n>>, n, IF bad(n) /\ why(n) = "noep" THEN Cd("F", "F") ELSE Cd("T", "nil"))
+      order == <<"n1", "n2", "n3", "n4">>
+      slice(Q) == LET q == SelectSeq(order, LAMBDA n : n \in Q) IN [k \in DOMAIN q |-> ent(q[k])]
+  IN [nodes |-> [n \in NodeNames |-> fl(n)], ml |-> ml, ign |-> ign,
+      advs |-> <<sel \cap odd, sel \ odd>>, etp |-> etp,
+      eps |-> << slice(NodeNames \cap odd), slice(NodeNames \ odd) >>]
+
+SeqCombos ==
+  {c \in [d : SeqDims, etp : EtpSet, ml : MlSet, ign : IgnSet] :
+     /\ (c.d \in {"dead", "mix"} => c.ml)
+     /\ (c.ign => c.d \in {"excl", "unavailx", "mix"})}
+
+----------------------------------------------------------------------------
+(* Configurations as custom resources (C10 / C04 through config.For).       *)
+(* Pool p1 (label tier=gold) holds the Service address, p2 (tier=silver)    *)
+(* does not.  An advertisement names pools, selects pools by label, selects *)
+(* nodes by their zone label; all other attributes are identical.           *)
+CfgZones == { [n \in NodeNames |-> IF n = "n2" THEN "b" ELSE "a"], [n \in NodeNames |-> "a"] }
+CfgAdvSpecs == [pools : SUBSET {"p1", "p2"}, psel : {"", "gold", "silver"}, nsel : {<<>>, <<"a">>, <<"b">>, <<"a", "b">>}]
+
+CfgSelectsP1(a) == "p1" \in a.pools \/ a.psel = "gold" \/ (a.pools = {} /\ a.psel = "")
+CfgNodes(a, zones) == IF a.nsel = <<>> THEN NodeNames ELSE {n \in NodeNames : zones[n] \in ERange(a.nsel)}
+
+(* the advertisements of p1 as node sets: what the statement calls "an      *)
+(* advertisement of the address's pool selects that node"                   *)
+CfgResolve(advs, zones) ==
+  LET q == SelectSeq(advs, CfgSelectsP1) IN [k \in DOMAIN q |-> CfgNodes(q[k], zones)]
+
+CfgView(advs, zones) ==
+  [nodes |-> [n \in NodeNames |-> FOk], ml |-> F, ign |-> F, advs |-> CfgResolve(advs, zones), etp |-> "Cluster",
+   eps |-> << <<Ent(<<"a">>, "n1", Cd("T", "T"))>> >>]
+
 ----------------------------------------------------------------------------
 Init == stage = 0 /\ x = [none |-> TRUE]
 
@@ -196,7 +255,28 @@ LemmaNext ==
   /\ stage = 0 /\ stage' = 2
   /\ x' \in Ranks(NodeNames)
 
+SeqNext ==
+  \/ /\ stage = 0 /\ stage' = 1
+     /\ x' \in {[c |-> c, S1 |-> S1] : c \in SeqCombos, S1 \in SUBSET NodeNames}
+  \/ /\ stage = 1 /\ stage' = 2
+     /\ x' \in {[meta |-> x.c,
+                  views |-> << SeqView(x.S1, x.c.d, x.c.etp, x.c.ml, x.c.ign), SeqView(S2, x.c.d, x.c.etp, x.c.ml, x.c.ign),
+                               SeqView(S3, x.c.d, x.c.etp, x.c.ml, x.c.ign) >>] :
+                   S2 \in (SUBSET NodeNames) \ {x.S1}, S3 \in SUBSET NodeNames}
+     /\ x'.views[2] # x'.views[3]
+     /\ PrintT(ToJson(Rec("seq", x')))
+
+CfgNext ==
+  \/ /\ stage = 0 /\ stage' = 1
+     /\ x' \in [zones : CfgZones, a1 : CfgAdvSpecs]
+  \/ /\ stage = 1 /\ stage' = 2
+     /\ x' \in {[cfg |-> [zones |-> x.zones, advs |-> advs], view |-> CfgView(advs, x.zones)] :
+                   advs \in {<<x.a1>>} \cup {<<x.a1, a2>> : a2 \in CfgAdvSpecs}}
+     /\ PrintT(ToJson(Rec("cfg", x')))
+
 Next == CASE Mode \in {"l2", "bgp"} -> ViewNext
+          [] Mode = "seq" -> SeqNext
+          [] Mode = "cfg" -> CfgNext
           [] Mode = "duel" -> DuelNext
           [] Mode = "pair" -> PairNext
           [] OTHER -> LemmaNext
@@ -217,6 +297,19 @@ InvBGP ==
   (Mode = "bgp" /\ stage = 2) =>
      /\ OneNodePerAddr(x.eps)
      /\ \A n \in NodeNames : CodeBGPAnnounces(x, n) <=> BGPEligible(x, n)
+
+(* sequences and configurations: the decision procedures have no memory, so *)
+(* every view of a sequence is judged like a single view                    *)
+InvSeq ==
+  (Mode = "seq" /\ stage = 2) =>
+     \A j \in DOMAIN x.views : \A r \in Ranks(NodeNames) :
+        /\ {n \in NodeNames : CodeL2Announces(x.views[j], n, r)} = Winner(x.views[j], r)
+        /\ \A n \in NodeNames : CodeBGPAnnounces(x.views[j], n) <=> BGPEligible(x.views[j], n)
+
+InvCfg ==
+  (Mode = "cfg" /\ stage = 2) =>
+     /\ \A n \in NodeNames : CodeBGPAnnounces(x.view, n) <=> BGPEligible(x.view, n)
+     /\ \A r \in Ranks(NodeNames) : {n \in NodeNames : CodeL2Announces(x.view, n, r)} = Winner(x.view, r)
 
 (* the scenario constructor does what it says *)
 InvMk ==
